@@ -293,6 +293,47 @@ theorem scBin_arith_kind [StrNorm] (op : BinOp) (x b y : Scalar) (ha : op.isArit
     | (simp at ha)
     | (simp at h)
 
+/-! ### Elements of sets are identified by their normal form -/
+
+theorem normSc_kind [StrNorm] (s : Scalar) : (normSc s).kind = s.kind := by cases s <;> rfl
+
+theorem sameKinds_map_normSc [StrNorm] (l : List Scalar) : sameKinds (l.map normSc) = sameKinds l := by
+  rw [Bool.eq_iff_iff, sameKinds_iff, sameKinds_iff]
+  simp only [List.mem_map, forall_exists_index, and_imp, forall_apply_eq_imp_iff₂, normSc_kind]
+
+theorem scBinEl_ok [StrNorm] (op : BinOp) (x b y : Scalar) :
+    scBinEl op x b = .ok y ↔ ∃ z, scBin op x b = .ok z ∧ y = normSc z := by
+  unfold scBinEl
+  cases h : scBin op x b with
+  | error e => simp [Except.map]
+  | ok z => simp [Except.map, eq_comm]
+
+theorem scBinEl_err [StrNorm] (op : BinOp) (x b : Scalar) (e : Err) :
+    scBinEl op x b = .error e ↔ scBin op x b = .error e := by
+  unfold scBinEl
+  cases h : scBin op x b with
+  | error e' => simp [Except.map]
+  | ok z => simp [Except.map]
+
+/-- `scBin_defined` for the element of an element-wise result -/
+theorem scBinEl_defined [StrNorm] (op : BinOp) (a b : Scalar) (hexp : intExp op b) :
+    ((∃ v, scBinEl op a b = .ok v) ↔ definedSc op a b) ∧
+    (∀ e, scBinEl op a b = .error e → ∃ k, e = .invalid k) := by
+  have h := scBin_defined op a b hexp
+  constructor
+  · rw [← h.1]
+    constructor
+    · rintro ⟨v, hv⟩; obtain ⟨z, hz, _⟩ := (scBinEl_ok op a b v).mp hv; exact ⟨z, hz⟩
+    · rintro ⟨z, hz⟩; exact ⟨normSc z, (scBinEl_ok op a b _).mpr ⟨z, hz, rfl⟩⟩
+  · intro e he; exact h.2 e ((scBinEl_err op a b e).mp he)
+
+theorem scBinEl_arith_kind [StrNorm] (op : BinOp) (x b y : Scalar) (ha : op.isArith = true) (h : scBinEl op x b = .ok y) :
+    y.kind = x.kind ∧ y.kind = b.kind := by
+  obtain ⟨z, hz, rfl⟩ := (scBinEl_ok op x b y).mp h
+  rw [normSc_kind]
+  exact scBin_arith_kind op x b z ha hz
+
+
 /-- Appendix E of DESIGN.md on values -/
 def defined : BinOp → Val → Val → Prop
   | op, .sc a, .sc b => definedSc op a b
@@ -349,13 +390,13 @@ theorem evalBin_set_sc [StrNorm] (op : BinOp) (as : List Scalar) (b : Scalar) (h
   constructor
   · constructor
     · rintro ⟨v, hv⟩ x hx
-      cases hm : mapR (fun x => scBin op x b) as with
+      cases hm : mapR (fun x => scBinEl op x b) as with
       | error e => simp [hm, Except.bind] at hv
       | ok ys =>
         obtain ⟨y, _, hy⟩ := forall₂_mem_left ((mapR_ok_iff _ _ _).mp hm) x hx
-        exact ((scBin_defined op x b hexp).1).mp ⟨y, hy⟩
+        exact ((scBinEl_defined op x b hexp).1).mp ⟨y, hy⟩
     · intro h
-      obtain ⟨ys, hys⟩ := mapR_total (fun x => scBin op x b) as (fun x hx => ((scBin_defined op x b hexp).1).mpr (h x hx))
+      obtain ⟨ys, hys⟩ := mapR_total (fun x => scBinEl op x b) as (fun x hx => ((scBinEl_defined op x b hexp).1).mpr (h x hx))
       have hf := (mapR_ok_iff _ _ _).mp hys
       have hne : ys ≠ [] := by
         intro h0; subst h0; cases hf; exact hane rfl
@@ -364,15 +405,15 @@ theorem evalBin_set_sc [StrNorm] (op : BinOp) (as : List Scalar) (b : Scalar) (h
         intro y1 hy1 y2 hy2
         obtain ⟨x1, _, h1⟩ := forall₂_mem_right hf y1 hy1
         obtain ⟨x2, _, h2⟩ := forall₂_mem_right hf y2 hy2
-        rw [(scBin_arith_kind op x1 b y1 harith h1).2, (scBin_arith_kind op x2 b y2 harith h2).2]
+        rw [(scBinEl_arith_kind op x1 b y1 harith h1).2, (scBinEl_arith_kind op x2 b y2 harith h2).2]
       exact ⟨_, by simp only [hys, Except.bind]; exact (mkSetS_ok_iff ys _).mpr ⟨hne, hk, rfl⟩⟩
   · intro e he
-    cases hm : mapR (fun x => scBin op x b) as with
+    cases hm : mapR (fun x => scBinEl op x b) as with
     | error e' =>
       simp only [hm, Except.bind, Except.error.injEq] at he
       subst he
       obtain ⟨x, _, hx⟩ := mapR_err _ _ _ hm
-      exact (scBin_defined op x b hexp).2 _ hx
+      exact (scBinEl_defined op x b hexp).2 _ hx
     | ok ys =>
       simp only [hm, Except.bind] at he
       exact mkSetS_err _ _ he
@@ -391,14 +432,14 @@ theorem evalBin_sc_set [StrNorm] (op : BinOp) (a : Scalar) (bs : List Scalar) (h
   constructor
   · constructor
     · rintro ⟨v, hv⟩ x hx
-      cases hm : mapR (fun x => scBin op a x) bs with
+      cases hm : mapR (fun x => scBinEl op a x) bs with
       | error e => simp [hm, Except.bind] at hv
       | ok ys =>
         obtain ⟨y, _, hy⟩ := forall₂_mem_left ((mapR_ok_iff _ _ _).mp hm) x hx
-        exact ((scBin_defined op a x (hexp x hx)).1).mp ⟨y, hy⟩
+        exact ((scBinEl_defined op a x (hexp x hx)).1).mp ⟨y, hy⟩
     · intro h
-      obtain ⟨ys, hys⟩ := mapR_total (fun x => scBin op a x) bs
-        (fun x hx => ((scBin_defined op a x (hexp x hx)).1).mpr (h x hx))
+      obtain ⟨ys, hys⟩ := mapR_total (fun x => scBinEl op a x) bs
+        (fun x hx => ((scBinEl_defined op a x (hexp x hx)).1).mpr (h x hx))
       have hf := (mapR_ok_iff _ _ _).mp hys
       have hne : ys ≠ [] := by
         intro h0; subst h0; cases hf; exact hbne rfl
@@ -407,15 +448,15 @@ theorem evalBin_sc_set [StrNorm] (op : BinOp) (a : Scalar) (bs : List Scalar) (h
         intro y1 hy1 y2 hy2
         obtain ⟨x1, _, h1⟩ := forall₂_mem_right hf y1 hy1
         obtain ⟨x2, _, h2⟩ := forall₂_mem_right hf y2 hy2
-        rw [(scBin_arith_kind op a x1 y1 harith h1).1, (scBin_arith_kind op a x2 y2 harith h2).1]
+        rw [(scBinEl_arith_kind op a x1 y1 harith h1).1, (scBinEl_arith_kind op a x2 y2 harith h2).1]
       exact ⟨_, by simp only [hys, Except.bind]; exact (mkSetS_ok_iff ys _).mpr ⟨hne, hk, rfl⟩⟩
   · intro e he
-    cases hm : mapR (fun x => scBin op a x) bs with
+    cases hm : mapR (fun x => scBinEl op a x) bs with
     | error e' =>
       simp only [hm, Except.bind, Except.error.injEq] at he
       subst he
       obtain ⟨x, hx, hfx⟩ := mapR_err _ _ _ hm
-      exact (scBin_defined op a x (hexp x hx)).2 _ hfx
+      exact (scBinEl_defined op a x (hexp x hx)).2 _ hfx
     | ok ys =>
       simp only [hm, Except.bind] at he
       exact mkSetS_err _ _ he
@@ -533,7 +574,7 @@ theorem evalBin_wf [StrNorm] (op : BinOp) (a b v : Val) (h : evalBin op a b = .o
     | set bs =>
       simp only [evalBin] at h
       split at h
-      · cases hm : mapR (fun x_1 => scBin op x x_1) bs with
+      · cases hm : mapR (fun x_1 => scBinEl op x x_1) bs with
         | error e => simp [hm, Except.bind] at h
         | ok ys => simp only [hm, Except.bind] at h; exact mkSetS_wf _ _ h
       · simp [inval] at h
@@ -542,7 +583,7 @@ theorem evalBin_wf [StrNorm] (op : BinOp) (a b v : Val) (h : evalBin op a b = .o
     | sc y =>
       simp only [evalBin] at h
       split at h
-      · cases hm : mapR (fun x => scBin op x y) as with
+      · cases hm : mapR (fun x => scBinEl op x y) as with
         | error e => simp [hm, Except.bind] at h
         | ok ys => simp only [hm, Except.bind] at h; exact mkSetS_wf _ _ h
       · simp [inval] at h
@@ -610,12 +651,12 @@ theorem evalBin_set_cmp [StrNorm] (op : BinOp) (as bs : List Scalar) (r : Bool) 
 /-- element-wise application, operand order preserved -/
 theorem evalBin_elementwise_left [StrNorm] (op : BinOp) (as : List Scalar) (b : Scalar) (r : List Scalar)
     (h : evalBin op (.set as) (.sc b) = .ok (.set r)) :
-    ∀ y, y ∈ r ↔ ∃ x ∈ as, scBin op x b = .ok y := by
+    ∀ y, y ∈ r ↔ ∃ x ∈ as, scBinEl op x b = .ok y := by
   simp only [evalBin] at h
   split at h
   swap
   · simp [inval] at h
-  cases hm : mapR (fun x => scBin op x b) as with
+  cases hm : mapR (fun x => scBinEl op x b) as with
   | error e => simp [hm, Except.bind] at h
   | ok ys =>
     simp only [hm, Except.bind] at h
@@ -632,12 +673,12 @@ theorem evalBin_elementwise_left [StrNorm] (op : BinOp) (as : List Scalar) (b : 
 
 theorem evalBin_elementwise_right [StrNorm] (op : BinOp) (a : Scalar) (bs : List Scalar) (r : List Scalar)
     (h : evalBin op (.sc a) (.set bs) = .ok (.set r)) :
-    ∀ y, y ∈ r ↔ ∃ x ∈ bs, scBin op a x = .ok y := by
+    ∀ y, y ∈ r ↔ ∃ x ∈ bs, scBinEl op a x = .ok y := by
   simp only [evalBin] at h
   split at h
   swap
   · simp [inval] at h
-  cases hm : mapR (fun x => scBin op a x) bs with
+  cases hm : mapR (fun x => scBinEl op a x) bs with
   | error e => simp [hm, Except.bind] at h
   | ok ys =>
     simp only [hm, Except.bind] at h
